@@ -255,7 +255,7 @@ fn check_invariant_on_impl(obs: &str) -> Option<String> {
 pub fn run(cfg: &Cfg) -> Report {
   let mut rep = Report::new(
     "C17",
-    "histories of add/remove/replace/clear/deploy over a six-model alphabet (same namespace/different name, different namespace/same name, identical, disjoint, one failing to build): every history up to length L exhaustively over a reduced operation alphabet, plus random histories up to length 200 over the full alphabet. Non-trivial: the history contains at least one successful add followed by a remove, replace, failed add or deploy; distinct by rendered history.",
+    "histories of add/remove/replace/clear/deploy over a six-model alphabet (same namespace/different name, different namespace/same name, identical, disjoint, one failing to build): every history up to length L exhaustively over a reduced operation alphabet, plus random histories up to length 200 over the full alphabet. Non-trivial: the history contains at least one successful add followed by a remove, replace, failed add or deploy; distinct by rendered history. server: histories over an alphabet of namespaces and names with leading / trailing / doubled white space, tabs and no-break spaces (and their trimmed twins) sent to the running HTTP service (add / replace / remove / clear / deploy requests, then evaluations), exhaustively to length 3 over 9 operations plus random ones, against the abstract workspace (keys verbatim).",
   );
   let alpha = Alphabet::find();
   // "built successfully" has a floor that does not depend on the builder: a decision whose logic is not a FEEL
@@ -443,7 +443,278 @@ pub fn run(cfg: &Cfg) -> Report {
       rep.sample(json!({"request": req, "implementation": obs, "model_and_spec": ans}));
     }
   }
+  server_family(cfg, &mut rep, &mut model, &mut rng, &alpha);
   rep.exhaustive = true;
   rep.model_requests = model.requests;
   rep
+}
+
+// ------------------------------------------------------------------------------------------
+// family `server`: the same histories through the HTTP handlers of server/src/server.rs
+// ------------------------------------------------------------------------------------------
+
+fn show_op(op: &Op) -> String {
+  match op {
+    Op::Add(d) => format!("add({:?}, {:?}{})", d.ns, d.name, if d.builds { "" } else { ", does not build" }),
+    Op::Replace(d) => format!("replace({:?}, {:?}{})", d.ns, d.name, if d.builds { "" } else { ", does not build" }),
+    Op::Remove(ns, n) => format!("remove({:?}, {:?})", ns, n),
+    Op::Clear => "clear".into(),
+    Op::Deploy => "deploy".into(),
+  }
+}
+
+fn op_line(op: &Op) -> String {
+  use crate::c18::name_sexp;
+  match op {
+    Op::Add(d) => format!("(add {} {} {})", name_sexp(&d.ns), name_sexp(&d.name), d.builds),
+    Op::Replace(d) => format!("(replace {} {} {})", name_sexp(&d.ns), name_sexp(&d.name), d.builds),
+    Op::Remove(ns, n) => format!("(remove {} {})", name_sexp(ns), name_sexp(n)),
+    Op::Clear => "clear".into(),
+    Op::Deploy => "deploy".into(),
+  }
+}
+
+/// The definitions operations of the service (`post_definitions_add` / `_replace` / `_remove` / `_clear` / `_deploy` and
+/// the `do_*` functions behind them, server.rs) are the workspace operations: a history sent as requests leaves what
+/// the abstract workspace specification says — keys (namespace, name) are compared verbatim, so a pair that add
+/// reported removes exactly that model, and a pair that differs from it (in white space only, too) is another pair.
+/// Observed: the answer to every request (added / already exists / status) and, afterwards, which names evaluate.
+/// The alphabet has namespaces and names with leading, trailing and doubled inner spaces, tabs, no-break and
+/// ideographic spaces, next to their trimmed twins.
+fn server_family(cfg: &Cfg, rep: &mut Report, model: &mut Model, rng: &mut Rng, alpha: &Alphabet) {
+  use crate::c18::{http, path_segment, xml_attr, Server};
+  let thorough = cfg.tier == "thorough";
+  let has_bad = alpha.bad_body.is_some();
+  let d = |ns: &str, n: &str, b: bool| MDef { ns: ns.into(), name: n.into(), builds: b || !has_bad };
+  let models = vec![
+    d(" ns1", "n1 ", true),             // white space at one end of each key
+    d("ns1", "n1", true),               // the trimmed twin: another pair
+    d("ns1 ", " n1", true),             // the other ends
+    d(" ns1 ", "n  2", true),           // both ends; doubled inside
+    d("ns  2", "n\t1", false),          // tab inside; fails to build
+    d("ns1\u{a0}", "\u{3000}n1", true), // no-break space, ideographic space
+    d(" ns1", "n1", true),              // namespace of the first, name of the second
+    d("ns3", "n 3", true),              // single inner space
+    d("\tns4", "n4\t", true),           // tabs at the ends
+  ];
+  // the names asked for after a history: those it mentions, and their trimmed twins
+  let probes_of = |h: &[Op]| -> Vec<String> {
+    let mut probes: Vec<String> = vec![];
+    for op in h {
+      let n = match op {
+        Op::Add(m) | Op::Replace(m) => m.name.clone(),
+        Op::Remove(_, n) => n.clone(),
+        _ => continue,
+      };
+      for p in [n.trim().to_string(), n] {
+        if !probes.contains(&p) {
+          probes.push(p);
+        }
+      }
+    }
+    probes
+  };
+  let mut removes: Vec<(String, String)> = vec![];
+  for m in &models {
+    for p in [
+      (m.ns.clone(), m.name.clone()),
+      (m.ns.trim().to_string(), m.name.trim().to_string()),
+      (m.ns.clone(), "n9".to_string()),
+      ("ns9".to_string(), m.name.clone()),
+      (format!("{} ", m.ns), m.name.clone()),
+    ] {
+      if !removes.contains(&p) {
+        removes.push(p);
+      }
+    }
+  }
+  let mut all_ops: Vec<Op> = vec![Op::Clear, Op::Deploy, Op::Deploy];
+  for m in &models {
+    all_ops.push(Op::Add(m.clone()));
+    all_ops.push(Op::Add(m.clone()));
+    all_ops.push(Op::Replace(m.clone()));
+  }
+  for (ns, n) in &removes {
+    all_ops.push(Op::Remove(ns.clone(), n.clone()));
+  }
+  let small_ops: Vec<Op> = vec![
+    Op::Add(models[0].clone()),
+    Op::Add(models[1].clone()),
+    Op::Add(models[2].clone()),
+    Op::Remove(models[0].ns.clone(), models[0].name.clone()),
+    Op::Remove(models[1].ns.clone(), models[1].name.clone()),
+    Op::Remove(models[0].ns.clone(), "n9".into()),
+    Op::Remove("ns9".into(), models[0].name.clone()),
+    Op::Replace(models[0].clone()),
+    Op::Deploy,
+  ];
+  let mut histories: Vec<Vec<Op>> = vec![];
+  // corpus: a model is removed with the pair add reported, and added again
+  for (ns, n) in [("https://dmntk.io/loans", "Loan approval "), (" https://dmntk.io/cards", "Card approval"), ("https://dmntk.io/accounts ", " Account approval")] {
+    histories.push(vec![Op::Add(d(ns, n, true)), Op::Deploy, Op::Remove(ns.into(), n.into()), Op::Deploy, Op::Add(d(ns, n, true)), Op::Deploy]);
+  }
+  let k = small_ops.len() as u64;
+  let max_len = if thorough { 4 } else { 3 };
+  for len in 0..=max_len {
+    for mut code in 0..k.pow(len as u32) {
+      let mut h = Vec::with_capacity(len);
+      for _ in 0..len {
+        h.push(small_ops[(code % k) as usize].clone());
+        code /= k;
+      }
+      histories.push(h);
+    }
+  }
+  let n_random = if thorough { 6_000 } else { 350 };
+  for _ in 0..n_random {
+    let len = 2 + rng.below(13) as usize;
+    let mut h: Vec<Op> = vec![];
+    let mut added: Vec<MDef> = vec![];
+    for _ in 0..len {
+      // aim removes at what was added: with the exact pair half of the time
+      let op = if !added.is_empty() && rng.chance(1, 4) {
+        let m = rng.pick(&added).clone();
+        if rng.chance(2, 3) {
+          Op::Remove(m.ns.clone(), m.name.clone())
+        } else {
+          Op::Remove(m.ns.trim().to_string(), m.name.trim().to_string())
+        }
+      } else {
+        rng.pick(&all_ops).clone()
+      };
+      if let Op::Add(m) | Op::Replace(m) = &op {
+        added.push(m.clone());
+      }
+      h.push(op);
+    }
+    if rng.chance(1, 2) {
+      h.push(Op::Deploy);
+    }
+    histories.push(h);
+  }
+  rep.extra.insert("server_histories".into(), json!(histories.len()));
+
+  let mut server = match Server::start() {
+    Ok(s) => s,
+    Err(e) => {
+      rep.disagree(Kind::ImplVsSpec, "server", "the service does not start on a loopback port", "start_server(127.0.0.1, free port)", &e, "a listening service");
+      return;
+    }
+  };
+  let port = server.port;
+  let js = Some("application/json");
+  let reqs: Vec<String> = histories
+    .iter()
+    .map(|h| format!("(c17 spec ({}) ({}))", h.iter().map(op_line).collect::<Vec<_>>().join(" "), probes_of(h).iter().map(|p| crate::c18::name_sexp(p)).collect::<Vec<_>>().join(" ")))
+    .collect();
+  let answers = model.ask_batch(&reqs);
+  let content = |m: &MDef| -> String {
+    let body = if m.builds { GOOD_BODY } else { alpha.bad_body.unwrap_or(GOOD_BODY) };
+    json!({"content": base64::encode(model_xml(&xml_attr(&m.ns), &xml_attr(&m.name), body))}).to_string()
+  };
+  let mut n_http = 0u64;
+  'hist: for ((h, req), ans) in histories.iter().zip(reqs.iter()).zip(answers.iter()) {
+    let shown = h.iter().map(show_op).collect::<Vec<_>>().join(" ; ");
+    let input = format!("{} ;; requests: {}", req, shown);
+    let probes = probes_of(h);
+    let mut results: Vec<String> = vec![];
+    let mut exchange = |path: &str, ct: Option<&str>, body: &str| -> Result<serde_json::Value, String> {
+      n_http += 1;
+      let a = http(port, "POST", path, ct, body.as_bytes())?;
+      serde_json::from_slice::<serde_json::Value>(&a.body).map_err(|e| format!("the answer is not JSON ({}): {}", e, String::from_utf8_lossy(&a.body)))
+    };
+    let mut steps: Vec<(String, Option<String>, String)> = vec![("/definitions/clear".into(), None, String::new())];
+    for op in h {
+      steps.push(match op {
+        Op::Add(m) => ("/definitions/add".into(), Some(format!("{}\u{1}{}", m.ns, m.name)), content(m)),
+        Op::Replace(m) => ("/definitions/replace".into(), None, content(m)),
+        Op::Remove(ns, n) => ("/definitions/remove".into(), None, json!({"namespace": ns, "name": n}).to_string()),
+        Op::Clear => ("/definitions/clear".into(), None, String::new()),
+        Op::Deploy => ("/definitions/deploy".into(), None, String::new()),
+      });
+    }
+    for (i, (path, added_pair, body)) in steps.iter().enumerate() {
+      let j = match exchange(path, js, body) {
+        Ok(j) => j,
+        Err(e) => {
+          rep.disagree(Kind::ImplVsSpec, "server", "the service does not answer a definitions request with a JSON document", &format!("{} ;; request #{} POST {}", input, i, path), &format!("{} (process alive: {})", e, server.alive()), "a JSON answer");
+          break 'hist;
+        }
+      };
+      if i == 0 {
+        continue; // the clear that starts every history
+      }
+      let r = if let Some(data) = j.get("data") {
+        if let Some(pair) = added_pair {
+          // add reports what it stored: the attributes of the model, verbatim
+          let got = format!("{}\u{1}{}", data.get("namespace").and_then(|x| x.as_str()).unwrap_or("?"), data.get("name").and_then(|x| x.as_str()).unwrap_or("?"));
+          if got != *pair {
+            rep.disagree(Kind::ImplVsSpec, "server", "definitions/add reports a namespace or name that differs from the attributes of the model", &format!("{} ;; request #{}", input, i), &format!("{:?}", got.replace('\u{1}', " | ")), &format!("{:?}", pair.replace('\u{1}', " | ")));
+          }
+        }
+        "ok".to_string()
+      } else {
+        let msg = j.get("errors").and_then(|e| e.get(0)).and_then(|e| e.get("details")).and_then(|x| x.as_str()).unwrap_or("").to_string();
+        if msg.contains("with namespace '") {
+          "errNamespaceExists".to_string()
+        } else if msg.contains("with name '") {
+          "errNameExists".to_string()
+        } else {
+          format!("err:{}", msg.replace(' ', "_"))
+        }
+      };
+      results.push(r);
+    }
+    let mut can: Vec<String> = vec![];
+    for (pi, p) in probes.iter().enumerate() {
+      match exchange(&format!("/evaluate/{}/D", path_segment(p)), Some("text/plain"), "{}") {
+        Ok(j) => {
+          if j.get("data").is_some() {
+            can.push(pi.to_string());
+          }
+        }
+        Err(e) => {
+          rep.disagree(Kind::ImplVsSpec, "server", "the service does not answer an evaluation request with a JSON document", &format!("{} ;; POST /evaluate/{}/D", input, path_segment(p)), &e, "a JSON answer");
+          break 'hist;
+        }
+      }
+    }
+    let nontrivial = {
+      let mut added = false;
+      let mut nt = false;
+      for op in h {
+        match op {
+          Op::Add(_) if !added => added = true,
+          Op::Add(_) | Op::Remove(_, _) | Op::Replace(_) | Op::Deploy if added => nt = true,
+          _ => {}
+        }
+      }
+      nt
+    };
+    rep.case(&format!("server {}", req), nontrivial);
+    rep.hit(&format!("server:len:{}", if h.len() > 6 { ">6".to_string() } else { h.len().to_string() }));
+    let i_results = format!("(results{}{})", if results.is_empty() { "" } else { " " }, results.join(" "));
+    let i_can = format!("(evaluable{}{})", if can.is_empty() { "" } else { " " }, can.join(" "));
+    let (s_results, s_can) = match Sexp::parse(ans).as_ref().and_then(|s| s.as_list()) {
+      Some([r, e]) => (r.to_string(), e.to_string()),
+      _ => {
+        rep.disagree(Kind::ImplVsModel, "server", "driver-error", req, "", ans);
+        continue;
+      }
+    };
+    if i_results != s_results {
+      rep.disagree(Kind::ImplVsSpec, "server_refines_spec", "a history of requests to the server leaves different 'results' than the abstract workspace", &input, &i_results, &s_results);
+    }
+    if i_can != s_can {
+      let names = |idx: &str| -> String { idx.trim_matches(|c| c == '(' || c == ')').split(' ').skip(1).filter_map(|i| i.parse::<usize>().ok()).map(|i| format!("{:?}", probes[i])).collect::<Vec<_>>().join(", ") };
+      rep.disagree(Kind::ImplVsSpec, "server_refines_spec", "a history of requests to the server leaves a different 'evaluable' than the abstract workspace", &input, &format!("{} = {}", i_can, names(&i_can)), &format!("{} = {}", s_can, names(&s_can)));
+    }
+    if !results.is_empty() && results.iter().all(|r| r == "ok") && rep.samples.len() < 12 && h.len() >= 3 && h.len() <= 5 && rng.chance(1, 30) {
+      rep.sample(json!({"family": "server", "requests": shown, "results": i_results, "evaluable": i_can, "specification": ans}));
+    }
+  }
+  rep.extra.insert("server_http_requests".into(), json!(n_http));
+  if !server.alive() {
+    rep.disagree(Kind::ImplVsSpec, "server", "the service process ended during the run", "(server family)", "process ended", "a running service");
+  }
 }
